@@ -71,6 +71,10 @@ def extraction_report(relpath, qualname):
             dropped.append('print@%d' % x.lineno)
         if isinstance(x, ast.Call) and isinstance(x.func, ast.Attribute) and x.func.attr == 'warn':
             dropped.append('warnings.warn@%d' % x.lineno)
+    import copy
+    from . import symex as _sx
+    if ast.dump(_sx.DesugarComprehension().visit(copy.deepcopy(node))) != ast.dump(node):
+        dropped.append('rewritten: nested list comprehension inside np.array(...) expanded into the two loops it abbreviates (same evaluation order)')
     return {'file': relpath, 'function': qualname, 'lines': [node.lineno, node.end_lineno],
             'sha256': hashlib.sha256(seg.encode()).hexdigest(), 'statements': n_stmts, 'dropped': dropped}
 
